@@ -124,12 +124,23 @@ def random_layer(ctx, ncases):
                     keys.append(rng.range(1, len(targets)))
                 else:
                     keys.append(eg.expr(rng.choice(['int', 'Decimal', 'str', 'date', 'bool']), 2))
+            # a key that looks like the expression target but differs in a literal: it is another key (hidden), not that target
+            if isinstance(targets[-1].expression, ast.Node) and not isinstance(targets[-1].expression, ast.Column) and rng.chance(1, 2):
+                near = gen_sql.perturb_constant(targets[-1].expression, rng)
+                if near is not None:
+                    keys.insert(rng.below(len(keys) + 1), near)
+                    ctx.count('near-copy-key')
             group = None
         order = [ast.OrderBy(k, ast.Ordering(rng.below(2))) for k in keys]
         distinct = True if rng.chance(1, 3) else None
         limit = rng.choice([None, None, 0, 1, 2, 5, 50])
         where = eg.expr('bool', 1) if rng.chance(1, 3) else None
-        sel = ast.Select(targets, ast.Table('t'), where, group, order, None, limit, distinct)
+        frm = ast.Table('t')
+        if rng.chance(1, 5):
+            # the same statement over a FROM subquery delivering the table: subquery columns are columns of their own
+            frm = ast.Select([ast.Target(ast.Column(n_), None) for n_, t in gen_sql.STD_SCHEMA], ast.Table('t'), None, None, None, None, None, None)
+            ctx.count('from-subquery')
+        sel = ast.Select(targets, frm, where, group, order, None, limit, distinct)
         SqlCase([table], sel, name='random-agg' if aggregate else 'random').check(ctx, nontrivial=len(table.rows) >= 2)
         ctx.count('agg' if aggregate else 'nonagg')
         ctx.count('distinct' if distinct else 'all')
@@ -137,7 +148,7 @@ def random_layer(ctx, ncases):
 
 def run(ctx):
     pattern_layer(ctx)
-    random_layer(ctx, 3000 if ctx.thorough() else 500)
+    random_layer(ctx, 60000 if ctx.thorough() else 500)
 
 
 def replay(ctx, body):
